@@ -44,9 +44,13 @@ try:
             out["demos"][d] = {"unchanged": cut(a.stdout), "unchanged_rc": a.returncode,
                                "changed": cut(b.stdout), "changed_rc": b.returncode,
                                "differs": (a.stdout.split("Stack backtrace")[0], a.returncode) != (b.stdout.split("Stack backtrace")[0], b.returncode)}
-        r = sh("cargo nextest run --workspace --no-fail-fast --offline --test-threads 6 --build-jobs 8 2>&1 | tail -4", cwd=wt)
-        out["test_suite"] = r.stdout.strip().splitlines()[-2:] if r.stdout.strip() else []
-        out["tests_pass"] = "1099 passed" in r.stdout and "failed" not in r.stdout.split("Summary")[-1]
+        if os.environ.get("CONFIRM_SUITE", "0") == "1":
+            r = sh("cargo nextest run --workspace --no-fail-fast --offline --test-threads 6 --build-jobs 8 2>&1 | tail -4", cwd=wt)
+            out["test_suite"] = r.stdout.strip().splitlines()[-2:] if r.stdout.strip() else []
+            out["tests_pass"] = "1099 passed" in r.stdout and "failed" not in r.stdout.split("Summary")[-1]
+        else:
+            # the whole test suite is run by tools/confirm_suite_batch.py (one worktree, incremental builds)
+            out["tests_pass"] = None
 finally:
     sh(f"git -C /repo worktree remove --force {wt}")
     shutil.rmtree(wt, ignore_errors=True)
